@@ -337,7 +337,7 @@ fn c06(ctx: &Ctx, rep: &mut Report) {
     if !drop_privileges(&sb, 1000, 1000) {
         rep.inconclusive("could not switch to uid 1000 for the Stdfs half");
     }
-    let steps = if ctx.thorough { 1_000_000 } else { 24_000 } / ctx.shards;
+    let steps = if ctx.thorough { 3_000_000 } else { 48_000 } / ctx.shards;
     let m = Memfs::new();
     c06_backend(&m, "memfs", "/w", ctx, rep, steps, false);
     let vm = Vfs::memfs();
